@@ -377,6 +377,7 @@ int main(int argc, char** argv) {
   Axes AX; AX.dlons = {0, 1e-9, 30, 90, 179, 180, -180, -30, -179}; AX.lon0s = {0, -170, 190, -77.75, -77.75 + 360.0 * 7, -77.75 + 360.0 * 10000, -77.75 - 360.0 * 250000};
   if (!T) AX.dlons = {0, 1e-9, 30, 179, 180, -180, -30};
   std::vector<double> SETSCALE_LATS = {-89.0, -60.0, 0.0, 1e-9, 45.0, 89.0};
+  const size_t NQ_SINGLE = SINGLE.size(), NQ_PAIRS = PAIRS.size();      // the quick-tier standard parallels come first
   if (T) {   // deep thorough tier
     for (double v : {-89.999, -89.0, -75.0, -45.0, -30.0, 60.0, 75.0, 89.0, 89.9}) SINGLE.push_back(v);
     // nearly equal parallels at several separations (mid, equator, near the pole; both hemispheres), wide and asymmetric pairs, pairs across the equator
@@ -463,11 +464,11 @@ int main(int argc, char** argv) {
     for (int albers = 0; albers < 2; ++albers) {
       const char* fname = albers ? "albers" : "lcc";
       ctx.sub(std::string(fname) + "/" + EP.name);
-      struct Spec { double l1, l2; bool single; };
+      struct Spec { double l1, l2; bool single; bool quick; };
       std::vector<Spec> specs;
-      for (double s : SINGLE) specs.push_back({s, s, true});
-      for (const Pair& p : PAIRS) { specs.push_back({p.l1, p.l2, false}); }
-      if (albers) for (const Pair& p : ALBERS_ONLY) specs.push_back({p.l1, p.l2, false});
+      for (size_t i = 0; i < SINGLE.size(); ++i) specs.push_back({SINGLE[i], SINGLE[i], true, i < NQ_SINGLE});
+      for (size_t i = 0; i < PAIRS.size(); ++i) specs.push_back({PAIRS[i].l1, PAIRS[i].l2, false, i < NQ_PAIRS});
+      if (albers) for (const Pair& p : ALBERS_ONLY) specs.push_back({p.l1, p.l2, false, false});
       // documented constructor errors: LambertConformalConic with one parallel at a pole and a different second one; AlbersEqualArea with opposite poles
       if (T) {
         if (ctx.take()) {
@@ -616,6 +617,11 @@ int main(int argc, char** argv) {
         // scale ratios far from 1 (Reverse clamps drho with a constant that must be rescaled too) and SetScale applied twice (code -k: first SetScale(ls, 7), then SetScale(ls, k))
         if (!forms.empty()) for (double ls : SETSCALE_LATS) for (double ksc : {1.0, 0.9, 0.01, 0.1, 3.0, 10.0, 100.0, 1e4, -100.0}) {
           const double ks = std::fabs(ksc); const bool twice = ksc < 0;
+          // the scale values added in round e (everything except 1 and 0.9) are enumerated in the thorough tier on exactly the quick-tier combinations
+          // (quick ellipsoids, quick standard parallels, quick SetScale latitudes, the small post-SetScale lattice); the older values keep the full thorough lattice
+          const bool round_e = !(ksc == 1.0 || ksc == 0.9);
+          const bool quick_ls = ls == -89.0 || ls == -60.0 || ls == 0.0 || ls == 1e-9 || ls == 45.0 || ls == 89.0;
+          if (round_e && T && !(EP.quick && sp.quick && quick_ls)) continue;
           if (albers && (ks < 0.05 || ks > 5)) { ctx.list("skipped", "AlbersEqualArea::SetScale to k in {0.01, 10, 100, 1e4}: with such azimuthal scales on the cones of the alphabet the plane errors reach 1e3..1e4 ulp of |x| "
                                                          "(e.g. (-30,30+1e-6), SetScale(-89,1e4): y off by 2.5e-4 m at |x| = 5.8e8 m); no documented accuracy applies and the round-off model of this check does not cover it; "
                                                          "k in {0.1, 3} and the LambertConformalConic / PolarStereographic extremes are checked"); continue; }
@@ -664,7 +670,7 @@ int main(int argc, char** argv) {
           }
           if (denormal_n) { U.defect = "denormal-standard-parallel"; U.defect_blanket = true; U.defect_in_reverse = false; }
           Axes As; As.lats = {ls, -89.99, -89, -45, 30, 60, 89, 89.99}; As.dlons = {0, 30, -179}; As.lon0s = {0};
-          if (T) { As = A; if (std::find(As.lats.begin(), As.lats.end(), ls) == As.lats.end()) As.lats.push_back(ls); }      // deep tier: the full lattice
+          if (T && !round_e) { As = A; if (std::find(As.lats.begin(), As.lats.end(), ls) == As.lats.end()) As.lats.push_back(ls); }      // deep tier: the full lattice
           check_projection(ctx, E, U, Os, As, f2, {}, 1.0, false);
           { double x, y, g, k; U.fwd(0, ls, 20, x, y, g, k); Q e = fabsq(Q(k) / Q(ks) - 1);
             if (e > 1.6e-14Q) { mc::Fields ff = {{"kind", "setscale-k"}, {"proj", U.name}}; if (U.defect_blanket) ff.push_back({"defect", U.defect}); ctx.fail(U.name + " setscale-k", U.name + ": Forward gives k=" + fx(k) + " at the SetScale latitude", ff); } }
